@@ -1879,6 +1879,21 @@ func (f *Frame) execMakeSlice(st *State, x *ssa.MakeSlice) Value {
 		M2 := B.Fresh(f.prefix+x.Name()+".M", SArrII)
 		vc.fact(B.Forall([]*Term{k}, B.Eq(B.Select(M2, k), B.Ite(B.And(B.Le(p, k), B.Lt(k, B.Add(p, size))), B.Int(0), B.Select(M, k)))))
 		vc.heapSet(st, "M", M2)
+	} else {
+		// zero-filled elements of other types: every leaf class reads 0 inside the new array
+		et := x.Type().Underlying().(*types.Slice).Elem()
+		classes := map[string]bool{}
+		storeClasses("", et, classes)
+		for cls := range classes {
+			if cls == "M" || cls == "*" || vc.heapSort(cls) != SArrII {
+				continue
+			}
+			H := vc.heapGet(st, cls)
+			H2 := B.Fresh(f.prefix+x.Name()+".z", SArrII)
+			k := B.BVar("z", SInt)
+			vc.fact(B.Forall([]*Term{k}, B.Eq(B.Select(H2, k), B.Ite(B.And(B.Le(p, k), B.Lt(k, B.Add(p, size))), B.Int(0), B.Select(H, k)))))
+			vc.heapSet(st, cls, H2)
+		}
 	}
 	return VSlice{p, n, c}
 }
